@@ -40,6 +40,8 @@ OBLIGATIONS = [
     "SkVerif.C14.tabularize_rejects_ragged",
     "SkVerif.C14.columnConcat_eq_spec",
     "SkVerif.C14.tabularize_rows_preserved_in_order",
+    "SkVerif.C14.tabularize_values_ignore_labels",
+    "SkVerif.C14.tabularize_names_column_then_time",
     "SkVerif.C14.paa_eq_frame_means_fractional",
     "SkVerif.C14.paa_eq_spec",
     "SkVerif.C14.paa_frame_mean_dividing",
@@ -94,12 +96,13 @@ OBLIGATIONS = [
     "SkVerif.C14.slope_number_of_segments",
 ]
 TRUSTED = [
-    "hand-written models lean/SkVerif/Model/C14{Panel,PAA,Seg,Interp,Impute,Feat}.lean of the anchored transformers, faithful to the extent this correspondence exercises them",
+    "hand-written models lean/SkVerif/Model/C14{Panel,Labels,PAA,Seg,Interp,Impute,Feat}.lean of the anchored transformers, faithful to the extent this correspondence exercises them",
     "numpy / pandas / scipy / statsmodels / scikit-learn primitives as black boxes with their documented meaning: np.full + slice assignment, Series.iloc[int array], np.hstack, ndarray.reshape, np.array_split, Python slicing, np.pad(mode='edge'), as_strided windows, np.linspace, scipy interp1d(kind='linear'/'nearest'), Series.fillna/mean/median/interpolate/replace, statsmodels acf(fft=False), MinMaxScaler / MaxAbsScaler",
     "np.cos, the wrapped row transformers and the RandomIntervalFeatureExtractor feature callables are parameters of the model (theorems hold for any function); their values enter the correspondence as tables computed by the harness",
     "np.std is compared through its square (the model returns the variance); statsmodels' default n_lags (uses log10) is resolved by the harness",
 ]
 ASSUMPTIONS = [
+    "column labels of a data-frame input (panel columns, frame-of-series columns) are varied on the real code for every transformer; the required values depend on a column's position only, so only the Tabularizer / ColumnConcatenator model carries labels (they enter the names of the tabular columns, compared in the correspondence; the oracle does not speak about names)",
     "exact rational arithmetic: theorems say nothing about floating-point rounding (PAA compares floats with == inside its loop; no lost or shifted frame was observed for lengths <= 64)",
     "Imputer: contiguous integer index (method='nearest' then measures distance in positions); methods 'random' and 'forecaster' are not closed-form and are not modelled; DataFrame input is column-wise Series input",
     "TSInterpolator on a one-point series follows the installed scipy (only length 1 can be requested); older scipy rejects it outright",
@@ -161,11 +164,13 @@ def col_dtype(dtype, j):
 
 def build(panel, kind, t0=0, names=None, dtype="f8"):
     """the container handed to the real code; `dtype` is the dtype of the cells (integer dtypes are only
-    used with integer-valued data, float32 with values exactly representable in float32)"""
+    used with integer-valued data, float32 with values exactly representable in float32); `names` are the
+    column labels of the nested DataFrame (default dim_0, dim_1, ...; any order, strings or integers: the
+    position of a column in the frame, not its label, is what "column" means in the property)"""
     if kind == "N":
         return np.array(panel, dtype=col_dtype(dtype, 0))
     ncol = len(panel[0]) if panel else 0
-    names = names or ["dim_%d" % j for j in range(ncol)]
+    names = list(names) if names and len(names) >= ncol else ["dim_%d" % j for j in range(ncol)]
     data = {}
     for j in range(ncol):
         col = []
@@ -173,7 +178,7 @@ def build(panel, kind, t0=0, names=None, dtype="f8"):
             v = np.array(inst[j], dtype=col_dtype(dtype, j))
             col.append(pd.Series(v, index=pd.RangeIndex(t0, t0 + len(v))) if kind == "S" else v)
         data[names[j]] = pd.Series(col, dtype=object)
-    return pd.DataFrame(data) if ncol else pd.DataFrame(index=range(len(panel)))
+    return pd.DataFrame(data, columns=names[:ncol]) if ncol else pd.DataFrame(index=range(len(panel)))
 
 
 def nested_out(df):
@@ -278,7 +283,7 @@ CT = {}
 
 
 def _panel_arg(key):
-    return lambda c: build(c[key], c["kind"], c.get("t0", 0), dtype=c.get("dtype", "f8"))
+    return lambda c: build(c[key], c["kind"], c.get("t0", 0), names=c.get("names"), dtype=c.get("dtype", "f8"))
 
 
 def obtain(c):
@@ -480,15 +485,28 @@ OPS["trunc"] = dict(line=trunc_line, real=trunc_real, oracle=trunc_oracle, gen=t
 
 
 # ----------------------------------------------------------------------------- tabularizer / column concatenator
+def _tab_labels(c):
+    nc = len(c["x"][0])
+    nm = c.get("names")
+    return [str(v) for v in (nm[:nc] if nm and len(nm) >= nc else ["dim_%d" % j for j in range(nc)])]
+
+
 def tab_line(c):
-    return "C14 %s %s" % (c["op"], show_panel(c["x"]))
+    if c["kind"] == "N" or not c["x"] or not c["x"][0]:
+        return "C14 %s %s" % (c["op"], show_panel(c["x"]))
+    # nested data frame: the model gets the column labels (and the first time index) as well and also answers the
+    # names of the tabular columns
+    if c["op"] == "tab":
+        return "C14 tabl %s %s %d %s" % (c["kind"], ",".join(_tab_labels(c)), c.get("t0", 0) if c["kind"] == "S" else 0, show_panel(c["x"]))
+    return "C14 concatl %s %s %s" % (c["kind"], ",".join(_tab_labels(c)), show_panel(c["x"]))
 
 
 def tab_real(c):
     def f():
         r = fit_transform(c)
         if c["op"] == "tab":
-            return show_table(np.asarray(r, dtype="float64").tolist())
+            names = ",".join(str(v) for v in r.columns) + "=" if isinstance(r, pd.DataFrame) and c["kind"] != "N" else ""
+            return names + show_table(np.asarray(r, dtype="float64").tolist())
         return show_panel(nested_out(r))
     return guarded(f)
 
@@ -508,6 +526,7 @@ def tab_oracle(c, out):
     rows = [[v for s in inst for v in s] for inst in x]
     if out.startswith("E:"):
         return [(op + ":valid-rejected", "equal-length columns rejected: " + out)]
+    out = out.split("=", 1)[1] if "=" in out else out      # names of the tabular columns: not in the statement
     got = parse_table(out) if op == "tab" else [i[0] if len(i) == 1 else None for i in parse_panel(out)]
     if len(got) != len(rows) or any(g is None for g in got):
         return [(op + ":rows-or-columns", "got %s" % out)]
@@ -926,9 +945,16 @@ def _series(z, i0=0, dtype="f8"):
     return pd.Series([NAN if v is None else float(v) for v in z], index=pd.RangeIndex(i0, i0 + len(z)), dtype="float64")
 
 
+def _frame_names(names, ncol):
+    """column labels of a frame of series (default c0, c1, ...)"""
+    return list(names)[:ncol] if names and len(names) >= ncol else ["c%d" % j for j in range(ncol)]
+
+
 def _impute_data(c):
     if "zs" in c:          # a frame: one column per series
-        return pd.DataFrame({"c%d" % j: _series(col, c.get("i0", 0), c.get("dtype", "f8")) for j, col in enumerate(c["zs"])})
+        names = _frame_names(c.get("names"), len(c["zs"]))
+        return pd.DataFrame({names[j]: _series(col, c.get("i0", 0), c.get("dtype", "f8")) for j, col in enumerate(c["zs"])},
+                            columns=names)
     return _series(c["z"], c.get("i0", 0), c.get("dtype", "f8"))
 
 
@@ -1145,7 +1171,7 @@ def rife_line(c):
 
 def rife_real(c):
     def f():
-        X = build(c["x"], c["kind"], c.get("t0", 0), dtype=c.get("dtype", "f8"))
+        X = build(c["x"], c["kind"], c.get("t0", 0), names=c.get("names"), dtype=c.get("dtype", "f8"))
         t = obtain(c)
         try:
             t.fit(X)
@@ -1511,11 +1537,12 @@ def cos_gen(tier, rng):
 OPS["cos"] = dict(line=cos_line, real=cos_real, oracle=cos_oracle, gen=cos_gen)
 
 
-def _frame(cols, i0, dtype="f8"):
+def _frame(cols, i0, dtype="f8", names=None):
     if len(cols) == 1:
         return _series(cols[0], i0, dtype)
-    return pd.DataFrame({"c%d" % j: np.array(col, dtype=col_dtype(dtype, j)) for j, col in enumerate(cols)},
-                        index=pd.RangeIndex(i0, i0 + len(cols[0])))
+    names = _frame_names(names, len(cols))
+    return pd.DataFrame({names[j]: np.array(col, dtype=col_dtype(dtype, j)) for j, col in enumerate(cols)},
+                        index=pd.RangeIndex(i0, i0 + len(cols[0])), columns=names)
 
 
 def _sk(t):
@@ -1528,8 +1555,8 @@ def adapt_line(c):
 
 
 CT["adapt"] = (_cls("sktime.transformations.series.adapt", "TabularToSeriesAdaptor"), lambda c: dict(transformer=_sk(c["t"])),
-               lambda c: _frame(c["zfit"], c.get("i0", 0), c.get("dtype", "f8")),
-               lambda c: _frame(c["z"], c.get("i0", 0) + 2, c.get("dtype", "f8")))
+               lambda c: _frame(c["zfit"], c.get("i0", 0), c.get("dtype", "f8"), c.get("names")),
+               lambda c: _frame(c["z"], c.get("i0", 0) + 2, c.get("dtype", "f8"), c.get("names")))
 
 
 def adapt_real(c):
@@ -1714,7 +1741,7 @@ OPS["slopet"] = dict(line=slope_line, real=slope_real, oracle=slope_oracle, gen=
 # ----------------------------------------------------------------------------- runner interface
 RULE = ("per transformer: fixed-order exhaustive small scope over shapes / lengths / integer parameters (quick: seed-rotated "
         "stratified slice, thorough: all) + structured random larger panels + malformed configurations; values are random "
-        "dyadic rationals; about a third of the cases run on a re-used transformer object (constructed and fitted with another case's parameters and data, then set_params + fit); cell dtype varied over float64 / int64 / int32 / float32 / mixed columns, pad fill values over integer, negative, fractional, NaN. distinct by driver line; non-trivial = the real code returned a result (no error) with at least one value")
+        "dyadic rationals; about a third of the cases run on a re-used transformer object (constructed and fitted with another case's parameters and data, then set_params + fit); column labels of every data-frame input varied over default names, named variables in any order, reversed / shuffled default names, integer labels, and more than ten columns (dim_10 sorts before dim_2); cell dtype varied over float64 / int64 / int32 / float32 / mixed columns, pad fill values over integer, negative, fractional, NaN. distinct by driver line; non-trivial = the real code returned a result (no error) with at least one value")
 LEVEL_TEXT = "Lean 4 theorems (model = independent spec, lengths, order) about executable models of the closed-form transformers; models tied to /repo by a differential correspondence check and a property oracle on every run."
 LEVEL_NOTE = "Trusted: Lean kernel; the models' faithfulness to the extent the correspondence exercises it; harness + compat layer; numpy/pandas/scipy/statsmodels/sklearn as black boxes."
 TECHNIQUE = "Lean 4 machine-checked proof over executable models + differential correspondence with the real code + oracle from the property text"
@@ -1763,6 +1790,87 @@ def vary_dtype(rng, c):
             c["mv"] = float(int(c["mv"]))
     c["dtype"] = dtype
     return c
+
+
+LABEL_POOL = ["temp", "hum", "wind", "b", "a", "Z", "x10", "x2", "y", "dim_1", "dim_0", "var", "0", "acc_z", "acc_x", "B", "m"]
+MULTI_COLUMN_OPS = ("pad", "trunc", "tab", "concat", "paa", "interp", "rowprim", "rowser", "slopet")
+
+
+def _ncols(c):
+    if c["op"] in PANEL_OPS:
+        return len(c["x"][0]) if c.get("kind") != "N" and c["x"] and isinstance(c["x"][0], list) else 0
+    if c["op"] == "imputef":
+        return len(c["zs"])
+    if c["op"] == "adapt":
+        return len(c["z"]) if len(c["z"]) == len(c["zfit"]) and len(c["z"]) > 1 else 0
+    return 0
+
+
+def label_scheme(rng, nc, scheme=None):
+    """column labels are a dimension of EVERY transformer that takes a data frame: named variables in any order,
+    default names in reverse order, integer labels (descending / arbitrary), digits as strings.  The values a
+    transformer must return depend on the POSITION of a column, never on its label."""
+    scheme = scheme or rng.choice(["named", "named", "rev", "int-desc", "int-any", "shuffled-default"])
+    if scheme == "named":
+        return rng.sample(LABEL_POOL, nc) if nc <= len(LABEL_POOL) else ["v%d" % (nc - j) for j in range(nc)]
+    if scheme == "rev":
+        return ["dim_%d" % (nc - 1 - j) for j in range(nc)]
+    if scheme == "int-desc":
+        return [nc - 1 - j for j in range(nc)]
+    if scheme == "int-any":
+        return rng.sample(range(0, 3 * nc + 2), nc)
+    names = ["dim_%d" % j for j in range(nc)]
+    rng.shuffle(names)
+    return names
+
+
+def vary_names(rng, c, share=0.45):
+    nc = _ncols(c)
+    if nc >= 1 and "names" not in c and rng.random() < share:
+        c["names"] = label_scheme(rng, nc)
+    return c
+
+
+def wide_cases(tier, rng):
+    """panels with more than ten columns (default names dim_0 ... dim_10 ...: not in lexicographic order) and wide
+    panels with other labels, for every transformer that takes several columns"""
+    cases = []
+    for _ in range(5 if tier == "quick" else 60):
+        for op in MULTI_COLUMN_OPS:
+            nc = rng.randrange(11, 14)
+            ni = rng.randrange(1, 4)
+            n = rng.randrange(2, 5)
+            equal = op not in ("pad", "trunc", "interp") or rng.random() < 0.5
+            x = rand_panel(rng, [[n if equal else rng.randrange(2, 6) for _ in range(nc)] for _ in range(ni)])
+            if op in ("tab", "concat", "paa", "slopet", "rowprim", "rowser") and not equal:
+                continue
+            c = {"op": op, "kind": rng.choice(["S", "S", "A"]), "x": x, "t0": rng.choice([0, 0, 3])}
+            if op == "pad":
+                c.update(pad_length=rng.choice([None, 7]), fill=rng.choice(FILLS), xfit=x)
+            elif op == "trunc":
+                c.update(lower=rng.choice([None, 1]), upper=rng.choice([None, 2]), xfit=x)
+            elif op in ("paa", "slopet"):
+                c.update(k=rng.randrange(1, n + 1))
+            elif op == "interp":
+                c.update(length=rng.randrange(2, 8))
+            elif op == "rowser":
+                c.update(fn=rng.choice(["cumsum", "rev", "head2"]))
+            c = vary_dtype(rng, c)
+            if rng.random() < 0.4:
+                c["names"] = label_scheme(rng, nc)
+            cases.append(c)
+    # frames of series: imputation and the tabular adaptor column by column, many / unsorted columns
+    for _ in range(4 if tier == "quick" else 40):
+        nc, n = rng.randrange(11, 14), rng.randrange(2, 6)
+        zs = [[None if rng.random() < 0.3 else float(rng.randrange(-4, 9)) for _ in range(n)] for _ in range(nc)]
+        for col in zs:
+            if all(v is None for v in col):
+                col[0] = 1.0
+        m = rng.choice([m for m in METHODS if m != "constant"])
+        cases.append(vary_dtype(rng, {"op": "imputef", "method": m, "value": None, "mv": None, "zs": zs, "i0": 0}))
+        cases.append(vary_dtype(rng, {"op": "adapt", "t": rng.choice(["minmax", "maxabs"]), "zfit": [rand_cell(rng, n) for _ in range(nc)],
+                                      "z": [rand_cell(rng, n + 1) for _ in range(nc)], "i0": 0}))
+    return cases
 
 
 def _valid_ctor_params(c):
@@ -1815,6 +1923,9 @@ def gen_cases(tier, rng):
     cases = []
     for op in OPS:
         cases.extend(vary_dtype(rng, c) for c in OPS[op]["gen"](tier, rng))
+    cases.extend(wide_cases(tier, rng))
+    for c in cases:
+        vary_names(rng, c)
     add_history(rng, cases)
     cases.extend(history_cases(tier, rng))
     return cases
@@ -1846,6 +1957,10 @@ def features(c, out):
         f.append(c["op"] + ":kind=" + c["kind"])
     f.append(c["op"] + ":dtype=" + c.get("dtype", "f8"))
     f.append(c["op"] + (":history" if c.get("hist") else ":fresh"))
+    if _ncols(c):
+        nm = c.get("names")
+        f.append(c["op"] + ":labels=" + ("default" if not nm else "int" if isinstance(nm[0], int) else
+                                         "sorted" if nm == sorted(nm) else "unsorted") + (",>10cols" if _ncols(c) > 10 else ""))
     if c["op"] == "pad":
         f.append("pad:fill=" + ("nan" if c["fill"] is None else "int" if c["fill"] == int(c["fill"]) else "frac"))
     f.append(c["op"] + (":" + out if out.startswith("E:") else ":ok"))
@@ -1860,6 +1975,8 @@ def shrink(c):
         yield {k: v for k, v in c.items() if k != "hist"}
     if c.get("dtype") in ("mix", "i4"):
         yield dict(c, dtype="i8")
+    if c.get("names"):
+        yield {k: v for k, v in c.items() if k != "names"}
     for key in ("x", "xfit"):
         p = c.get(key)
         if not isinstance(p, list) or not p or not isinstance(p[0], list) or not p[0] or not isinstance(p[0][0], list):
@@ -1869,7 +1986,10 @@ def shrink(c):
                 yield dict(c, **{key: p[:i] + p[i + 1:]})
         if len(p[0]) > 1:
             for j in range(len(p[0])):
-                yield dict(c, **{key: [inst[:j] + inst[j + 1:] for inst in p]})
+                d = dict(c, **{key: [inst[:j] + inst[j + 1:] for inst in p]})
+                if key == "x" and c.get("names") and c.get("xfit") is None:
+                    d["names"] = c["names"][:j] + c["names"][j + 1:]
+                yield d
         for i in range(len(p)):
             for j in range(len(p[i])):
                 if len(p[i][j]) > 1:
